@@ -12,6 +12,7 @@ LEVEL = "exploration"
 TECHNIQUE = ('deterministic simulation (fault-free pipeline): seeded RDF 1.1 graphs/datasets x knob swarm x entry points, real rdflib writer -> channel -> real reader, oracle = input set')
 LEVEL_NOTE = ('sampling of inputs and configurations; set semantics; terms compared as rdflib holds them')
 OPTIMIZED_EVERY = 25      # every 25th run is executed in a child interpreter started with python -O
+PBPY_EVERY = 50           # every 50th run (offset 6) is executed with protobuf's pure-Python backend
 COMPILED_EVERY = 25       # every 25th run (offset 12) is executed in a child that imports a mypyc build of the tree
 RUNS = {"quick": 40000, "thorough": 800000}
 RULE = ("seeded runs of the fault-free pipeline with the rdflib integration: RDF 1.1 graph/dataset x knob "
